@@ -9,5 +9,7 @@ for tool in ("clang", "clang++", "gcc", "python3"):
 import e1
 for kind in ("atom", "mem"):
     print("generated", e1.gen_module(kind))
+import e3
+print("generated", e3.gen_wasihost())
 os.makedirs(os.path.join(V, "evidence"), exist_ok=True)
 print("setup ok")
